@@ -44,6 +44,26 @@ Theorem c04_recovers_chain_partial_cfi :
 Proof. exact cfi_recovers_gen. Qed.
 Print Assumptions c04_recovers_chain_partial_cfi.
 
+(* ... and the same for ANY symbol-file oracle that agrees with the correct one on the frames of this stack: the hook
+   through which a concrete evaluator (C06's model of walk_with_stack_cfi on rule text describing the layout) is
+   plugged in; the correspondence run does exactly that with the real code for `.cfa: SP N + .ra: .cfa w - ^`. *)
+Theorem c04_recovers_chain_partial_cfi_any :
+  forall p a os mem module_at max_module_addr instr_valid base fs ip0 fuel cfi_walk,
+    cfi_arch a ->
+    m_base mem = base -> mem_len mem = a_pw a * total_words fs 0 ->
+    cfi_wf_layout a base fs = true ->
+    module_at ip0 <> None ->
+    (forall f, In f fs -> module_at (fs_ra f - a_adj a) <> None) ->
+    (forall f, In f fs -> a_strip a = true -> fs_ra f < 2 ^ 47) ->
+    (forall callee gc fwd, r_fp (f_regs callee) = 0 -> r_lr (f_regs callee) = 0 -> r_gp (f_regs callee) = [] ->
+                           cfi_walk callee gc fwd = cfi_correct a base fs callee gc fwd) ->
+    (length fs < fuel)%nat ->
+    walk_stack current_code p a os mem module_at max_module_addr cfi_walk instr_valid fuel (ctx_regs ip0 base 0) VAll
+    = Ret (from_context (ctx_regs ip0 base 0) VAll TContext ::
+           cfi_chain a (a_callee_saved a ++ [a_cfi_sp_name a; a_cfi_ip_name a]) (ctx_regs ip0 base 0) base 0 fs).
+Proof. exact cfi_recovers_any. Qed.
+Print Assumptions c04_recovers_chain_partial_cfi_any.
+
 (* frame-pointer chains: [saved fp][return address][gap words of locals] per call, fp = sp = base in the context,
    no CFI: for x86, amd64 (Windows slack scan or not), arm on iOS and arm64 (= arm64_old) the walker follows the
    chain for EVERY depth: one frame per call with the right return address, instruction = ra - adj,
